@@ -164,6 +164,12 @@ ChainActions ==
 (* mode "sv": 8.12.9 compares values with SameValue: +0, -0 and NaN are the cases where it  *)
 (* differs from === *)
 SVVals == {IntV(0), NumV(NZero), NumV(NaN), IntV(1)}
+(* mode "order": creation order under deletion and re-creation (keys, names, for-in of a child *)
+(* and its prototype): plain data properties only, so that long histories stay cheap           *)
+OrderActions ==
+    {[op |-> "assign", o |-> o, n |-> n, v |-> IntV(1)] : o \in {CO, PO}, n \in NameSet}
+    \cup {[op |-> "delete", o |-> o, n |-> n] : o \in {CO, PO}, n \in NameSet}
+
 SVActions ==
     {[op |-> "define", o |-> CO, n |-> S_p, d |-> d] :
         d \in {S!ValueDesc(v) : v \in SVVals} \cup {[S!ValueDesc(v) EXCEPT !.hw = TRUE, !.w = FALSE] : v \in SVVals}}
@@ -197,9 +203,11 @@ Step(a) ==
 
 Next == /\ Len(hist) < MaxLen
         /\ \E a \in (CASE Mode = "table" -> TableActions [] Mode = "sv" -> SVActions
-                          [] Mode = "chain" -> ChainActions [] OTHER -> HistActions) : Step(a)
+                          [] Mode = "chain" -> ChainActions [] Mode = "order" -> OrderActions [] OTHER -> HistActions) : Step(a)
 
-View == heap
+(* mode "order" keeps the history in the view: the implementation's property list may depend on  *)
+(* the PATH (names deleted and created again), so every path is replayed, not one per state   *)
+View == IF Mode = "order" THEN <<heap, hist>> ELSE <<heap, <<>>>>
 vars == <<heap, hist, init>>
 
 -----------------------------------------------------------------------------
